@@ -30,6 +30,14 @@ type Result struct {
 
 func Fail(format string, a ...any) Result { return Result{Err: fmt.Errorf(format, a...)} }
 
+// Inconclusive ends the process with exit code 3: an infrastructure problem (time budget, resource
+// limit) that must never be reported as a violation.
+func Inconclusive(format string, a ...any) {
+	Flush()
+	fmt.Printf("INCONCLUSIVE-IN-CHILD: "+format+"\n", a...)
+	os.Exit(3)
+}
+
 // Replay is the self-contained file written for a failing case.
 type Replay struct {
 	Property string          `json:"property"`
@@ -225,7 +233,7 @@ func journal(label string, c any) {
 func Safe[C any](check func(C) Result, c C) (res Result) {
 	defer func() {
 		if r := recover(); r != nil {
-			res = Result{Err: fmt.Errorf("panic: %v\n%s", r, debug.Stack())}
+			res = Result{Err: fmt.Errorf("panic: %v\n%s", r, shortStack(debug.Stack()))}
 		}
 	}()
 	return check(c)
